@@ -108,6 +108,34 @@ def cvc5_check(smt2, timeout=20):
         return "unknown"
 
 
+def run_canaries(prop):
+    import shutil
+    import tempfile
+
+    out = {"run": 0, "killed": [], "survived": [], "skipped": []}
+    sd = os.path.join(ROOT, "seeded")
+    repo = os.environ.get("PVC_REPO", "/repo")
+    for d in sorted(os.listdir(sd)) if os.path.isdir(sd) else []:
+        if d.split("-")[0].rstrip("bc") != prop or not os.path.exists(os.path.join(sd, d, "patch.diff")):
+            continue
+        tmp = tempfile.mkdtemp(prefix="pvc_canary_")
+        try:
+            shutil.copytree(os.path.join(repo, "ptera"), os.path.join(tmp, "ptera"))
+            p = subprocess.run(["patch", "-p1", "-s", "-d", tmp, "-i", os.path.join(sd, d, "patch.diff")], capture_output=True, text=True)
+            if p.returncode != 0:
+                out["skipped"].append(d)  # the library changed under the patch
+                continue
+            out["run"] += 1
+            env = {**os.environ, "PVC_REPO": tmp, "PVC_EVIDENCE_DIR": os.path.join(tmp, "evidence"), "PVC_CANARY": "0"}
+            r = subprocess.run([sys.executable, "-m", "pvc.driver", prop, "quick"], cwd=ROOT, env=env, capture_output=True, text=True, timeout=900)
+            (out["killed"] if r.returncode == 1 and "VIOLATION" in r.stdout else out["survived"]).append(d)
+        except Exception as e:  # noqa
+            out["skipped"].append(f"{d}: {type(e).__name__}")
+        finally:
+            shutil.rmtree(tmp, ignore_errors=True)
+    return out
+
+
 def main(argv):
     if len(argv) >= 2 and argv[0] == "--replay":
         return subprocess.call([sys.executable, argv[1]])
@@ -252,6 +280,14 @@ def main(argv):
                 else:
                     violations.append((None, {"name": k["obligation"], "model": k.get("model"), "goal": k.get("what_fails", ""), "path": "", "native": True, "script": k.get("script")}))
 
+    # thorough tier: canaries -- every seeded change kept for this property is applied to a scratch copy of the library and
+    # the quick check must report it; a surviving canary is a checker fault (DESIGN 2.8)
+    canaries = None
+    if tier == "thorough" and os.environ.get("PVC_CANARY", "1") != "0":
+        canaries = run_canaries(prop)
+        for nm in canaries["survived"]:
+            faults.append(f"canary {nm} survived: the seeded change is no longer reported")
+
     exit_code = 0
     lines = []
     seen_v = set()
@@ -351,6 +387,7 @@ def main(argv):
             "explanation": "obligations generated by symbolic execution of the real function bodies under sidecar contracts; "
                            "level is 'proof' only if every unbounded obligation was discharged in this run",
             "native": native_report.get("summary") if native_report else None,
+            "canaries": canaries,
         },
         "assumptions": trusted,
         "wall_s": round(time.time() - t0, 2),
